@@ -11,7 +11,7 @@ tvars == <<parents, branches, head, tags, l>>
 TInit == l = 1 /\ GInit
 
 \* work-tree kinds the recorder produces; "ignored" (a file matched by .gitignore) and "empty-dir" are no changes
-Dirty(kind) == kind \in {"modified", "staged", "untracked", "deleted", "staged-deletion", "untracked-nested", "staged-then-reverted"}
+Dirty(kind) == kind \in {"modified", "staged", "untracked", "deleted", "staged-deletion", "untracked-nested", "staged-then-reverted", "mode-changed"}
 \* e.at = 0: observed in the main work tree (its root or a sub-directory); e.at = c: observed in a
 \* linked work tree (git worktree add) at commit c - its own HEAD, detached or on the branch e.wbranch
 \* created for it (a temporary branch at c: it carries no tag and changes no fact of the model)
